@@ -70,6 +70,14 @@ fn main() {
                     props::c02::run(tier)
                 }
                 "C14" => props::c14::run(tier),
+                "C08" => {
+                    world::install_seq_hooks();
+                    props::c08::run(tier)
+                }
+                "C05" => {
+                    world::install_seq_hooks();
+                    props::c05::run(tier)
+                }
                 "C17" => {
                     world::install_seq_hooks_lazy();
                     props::c17::run(tier)
@@ -136,6 +144,18 @@ fn main() {
                     props::c02::replay(&v)
                 }
                 "C14" => props::c14::replay(&v),
+                "C08" => {
+                    if v["engine"] != "E3-schedcheck" {
+                        world::install_seq_hooks();
+                    }
+                    props::c08::replay(&v)
+                }
+                "C05" => {
+                    if v["engine"] != "E3-schedcheck" {
+                        world::install_seq_hooks();
+                    }
+                    props::c05::replay(&v)
+                }
                 "C17" => props::c17::replay(&v),
                 "C10" => {
                     world::install_seq_hooks();
@@ -169,6 +189,8 @@ fn main() {
         "e3shard" => e3::shard_main(&args[2..], &|prop, tier| match prop {
             "C14" => props::c14::bodies(tier),
             "C06" => props::c06::bodies(tier),
+            "C08" => props::c08::bodies(tier),
+            "C05" => props::c05e3::bodies(tier),
             "C17" => props::c17e3::bodies(tier),
             _ => vec![],
         }),
